@@ -21,7 +21,8 @@ pub enum Case {
 
 pub fn gen_sched(rng: &mut Rng64, step_cap: u64) -> SchedSpec {
     let seed = rng.next();
-    let strategy = match rng.below(12) {
+    let strategy = match rng.below(14) {
+        12 | 13 => Strategy::DelayOne { nth: 1 + rng.below(12) as u32, after: rng.below(4) as u32, max_freeze: *rng.pick(&[2_000u32, 50_000, 2_000_000]) },
         0..=2 => Strategy::Uniform,
         3 => Strategy::Sticky(500),
         4..=5 => Strategy::Sticky(900),
